@@ -77,6 +77,7 @@ MAP_VARIANTS = {
     "idx_gap": lambda spec: _by_index({i: 2 * i + 1 for i in range(len(spec["fields"]))}),
     "idx_partial": lambda spec: _by_index({0: 0}),
     "path_ss": lambda spec: _by_index({0: ("x", "y")}),
+    "path_last_ss": lambda spec: _by_index({len(spec["fields"]) - 1: ("x", "y")}),   # a branch holding only the (often optional) last field
     "path_si": lambda spec: _by_index({0: ("x", 0)}),
     "path_si_gap": lambda spec: _by_index({0: ("x", 1)}),
     "path_ell": lambda spec: _by_index({0: ("x", ...)}),
